@@ -101,6 +101,12 @@ class _PackInterp(BufInterp):
         return super().decide(cond, node)
 
     def get_attr(self, obj, attr, node, mod):
+        if isinstance(obj, Obj) and obj.label in ("out_info", "in_info", "info") and attr not in obj.fields:
+            # the slot's info leaves the mask open (Mask.FLEX, the default): payloads may be masked or not
+            if attr == "is_masked":
+                return False
+            if attr == "mask":
+                return Sym("enum", "Mask", "FLEX")
         if isinstance(obj, Sym) and obj.op == "payload":
             if attr == "nbytes":
                 return Sym("size")
@@ -153,6 +159,11 @@ class _PackInterp(BufInterp):
             return None
         if short == "load":
             return Sym("loaded", args[0], kwargs.get("allow_pickle", False))
+        if short in ("asarray", "array", "ascontiguousarray", "asfarray") and "ma" not in name.split(".")[:-1] and args and _find(args[0], "loaded") is not None:
+            # numpy's plain conversions return the bare buffer of a masked array (np.ma.asarray / np.asanyarray keep it)
+            return Sym("bare", args[0])
+        if short in ("asanyarray",) or (short in ("asarray", "array") and "ma" in name.split(".")[:-1]):
+            return args[0]
         if short == "Quantity":
             return Sym("qty", args[0], args[1])
         return super().ext_call(name, args, kwargs, node)
@@ -339,6 +350,11 @@ def r24s_format(repo, sink):
             sink.check(loaded is not None and loaded.args[1] is True, "R24", f"mask-reader:{up.qualname}", up,
                        ok="reader loads with allow_pickle=True (the writer pickles masked payloads)",
                        bad="the writer pickles masked payloads but the reader does not allow pickles: spilled masked data cannot be read back")
+        if masked_writer and loaded is not None:
+            sink.check(_find(got, "bare") is None, "R24", f"mask-reader-keeps-mask:{up.qualname}", up,
+                       ok="what np.load returns reaches the consumer without a mask-dropping conversion",
+                       bad="the reader passes the loaded object through a plain numpy conversion (np.asarray / np.array): the pickled masked array of a spilled "
+                           "publication comes back as its bare buffer - the mask is lost for exactly the publications that went to disk")
         ram = it.run(up, [Sym("payload")], self_obj=o)
         sink.check(ram == Sym("payload"), "R24", f"unpack-ram:{up.qualname}", up, ok="entries kept in RAM are returned as they are", bad=f"_unpack of a RAM entry returns {ram!r}")
     # (b) label units per owner class
